@@ -137,4 +137,297 @@ theorem keys_complete (ps : List (Rcpt × ReplyId)) (acc) :
       · simp
     · exact ih _ p hp'
 
+/-! ### deleting delivered positions -/
+
+theorem idxOf_cons_ne' {y x : Rcpt} (ys : List Rcpt) (h : y ≠ x) : (y :: ys).idxOf x = ys.idxOf x + 1 := by
+  rw [List.idxOf_cons]
+  have : (y == x) = false := by simp [h]
+  simp [this]
+
+theorem delIdxAux_filter (l : List Rcpt) (i : Nat) (idxs : List Nat) (S : List Rcpt) (hn : l.Nodup)
+    (h : ∀ x ∈ l, idxs.contains (i + l.idxOf x) = S.contains x) :
+    delIdxAux idxs i l = l.filter (fun x => !S.contains x) := by
+  induction l generalizing i with
+  | nil => rfl
+  | cons y ys ih =>
+    simp only [List.nodup_cons] at hn
+    have hy := h y (by simp)
+    simp only [List.idxOf_cons_self, Nat.add_zero] at hy
+    have htail : ∀ x ∈ ys, idxs.contains (i + 1 + ys.idxOf x) = S.contains x := by
+      intro x hx
+      have hne : y ≠ x := by intro e; subst e; exact hn.1 hx
+      have := h x (by simp [hx])
+      rw [idxOf_cons_ne' _ hne] at this
+      rw [← this]; congr 1; omega
+    simp only [delIdxAux, List.filter_cons, hy]
+    by_cases hs : S.contains y = true
+    · simp [hs, ih (i + 1) hn.2 htail]
+    · simp [hs, ih (i + 1) hn.2 htail]
+
+theorem idxOf_inj_of_mem {l : List Rcpt} {a b : Rcpt} (ha : a ∈ l) (hb : b ∈ l) (h : l.idxOf a = l.idxOf b) : a = b := by
+  induction l with
+  | nil => simp at ha
+  | cons y ys ih =>
+    by_cases hya : y = a
+    · subst hya
+      by_cases hyb : y = b
+      · exact hyb
+      · rw [List.idxOf_cons_self, idxOf_cons_ne' _ hyb] at h; omega
+    · by_cases hyb : y = b
+      · subst hyb
+        rw [List.idxOf_cons_self, idxOf_cons_ne' _ hya] at h; omega
+      · rw [idxOf_cons_ne' _ hya, idxOf_cons_ne' _ hyb] at h
+        have ha' : a ∈ ys := by simpa [Ne.symm hya] using ha
+        have hb' : b ∈ ys := by simpa [Ne.symm hyb] using hb
+        exact ih ha' hb' (by omega)
+
+/-- With distinct recipients, deleting the positions of the settled recipients leaves exactly the
+    others, in order. -/
+theorem deleteIdxs_eq_filter (l : List Rcpt) (S : List Rcpt) (hn : l.Nodup) (hS : ∀ x ∈ S, x ∈ l) :
+    deleteIdxs (S.map l.idxOf) l = l.filter (fun x => !S.contains x) := by
+  apply delIdxAux_filter l 0 _ S hn
+  intro x hx
+  simp only [Nat.zero_add]
+  rw [Bool.eq_iff_iff]
+  simp only [List.contains_iff_mem, List.mem_map]
+  constructor
+  · rintro ⟨s, hs, he⟩
+    have := idxOf_inj_of_mem (hS s hs) hx he
+    subst this; exact hs
+  · intro hs; exact ⟨x, hs, rfl⟩
+
+/-! ### per-recipient results partition the recipients -/
+
+def settledOf (res : List (Rcpt × RRes)) : List Rcpt :=
+  res.filterMap fun (rc, v) => match v with | .ok | .perm _ => some rc | .temp _ => none
+def oksOf (res : List (Rcpt × RRes)) : List Rcpt :=
+  res.filterMap fun (rc, v) => match v with | .ok => some rc | _ => none
+def permsOf (res : List (Rcpt × RRes)) : List (Rcpt × ReplyId) :=
+  res.filterMap fun (rc, v) => match v with | .perm r => some (rc, r) | _ => none
+def tempsOf (res : List (Rcpt × RRes)) : List (Rcpt × ReplyId) :=
+  res.filterMap fun (rc, v) => match v with | .temp r => some (rc, r) | _ => none
+
+theorem count_partition (x : Rcpt) (res : List (Rcpt × RRes)) :
+    (oksOf res).count x + ((permsOf res).map Prod.fst).count x + ((tempsOf res).map Prod.fst).count x
+      = (res.map Prod.fst).count x := by
+  induction res with
+  | nil => rfl
+  | cons p rest ih =>
+    obtain ⟨rc, v⟩ := p
+    cases v <;> simp [oksOf, permsOf, tempsOf, List.filterMap_cons, List.count_cons] at ih ⊢ <;> omega
+
+theorem count_settled (x : Rcpt) (res : List (Rcpt × RRes)) :
+    (settledOf res).count x = (oksOf res).count x + ((permsOf res).map Prod.fst).count x := by
+  induction res with
+  | nil => rfl
+  | cons p rest ih =>
+    obtain ⟨rc, v⟩ := p
+    cases v <;> simp [settledOf, oksOf, permsOf, List.filterMap_cons, List.count_cons] at ih ⊢ <;> omega
+
+theorem deliveredIdx_eq (m : Msg) (res : List (Rcpt × RRes)) :
+    (res.filterMap fun (rc, v) => match v with
+      | .ok | .perm _ => some (m.rcpts.idxOf rc)
+      | .temp _ => none) = (settledOf res).map m.rcpts.idxOf := by
+  induction res with
+  | nil => rfl
+  | cons p rest ih =>
+    obtain ⟨rc, v⟩ := p
+    cases v <;> simp [settledOf, List.filterMap_cons] at ih ⊢ <;> exact ih
+
+/-! ### one attempt: conservation -/
+
+/-- The per-recipient result covers exactly the recipients of the message, each once. -/
+def Complete (m : Msg) (res : List (Rcpt × RRes)) : Prop :=
+  (res.map Prod.fst).Nodup ∧ m.rcpts.Nodup ∧ ∀ x, x ∈ res.map Prod.fst ↔ x ∈ m.rcpts
+
+theorem count_eq_of_nodup {a b : List Rcpt} (ha : a.Nodup) (hb : b.Nodup) (h : ∀ x, x ∈ a ↔ x ∈ b) (x : Rcpt) :
+    a.count x = b.count x := by
+  rw [ha.count, hb.count]
+  by_cases hx : x ∈ a
+  · simp [hx, (h x).mp hx]
+  · have hb' : x ∉ b := fun hb' => hx ((h x).mpr hb')
+    simp [hx, hb']
+
+theorem delIdxAux_subset (idxs : List Nat) (i : Nat) (l : List Rcpt) : ∀ x ∈ delIdxAux idxs i l, x ∈ l := by
+  induction l generalizing i with
+  | nil => simp [delIdxAux]
+  | cons y ys ih =>
+    intro x hx
+    simp only [delIdxAux] at hx
+    split at hx
+    · exact List.mem_cons_of_mem _ (ih (i + 1) x hx)
+    · rcases List.mem_cons.mp hx with rfl | h
+      · simp
+      · exact List.mem_cons_of_mem _ (ih (i + 1) x h)
+
+theorem settled_subset {m : Msg} {res : List (Rcpt × RRes)} (hc : Complete m res) : ∀ x ∈ settledOf res, x ∈ m.rcpts := by
+  intro x hx
+  apply (hc.2.2 x).mp
+  simp only [settledOf, List.mem_filterMap] at hx
+  obtain ⟨p, hp, he⟩ := hx
+  obtain ⟨rc, v⟩ := p
+  simp only [List.mem_map]
+  refine ⟨(rc, v), hp, ?_⟩
+  cases v <;> simp at he <;> exact he
+
+/-- What is left in storage after a partial delivery: exactly the recipients that were not settled. -/
+theorem remaining_rcpts (m : Msg) (res : List (Rcpt × RRes)) (hc : Complete m res) :
+    deleteIdxs (res.filterMap fun (rc, v) => match v with
+        | .ok | .perm _ => some (m.rcpts.idxOf rc)
+        | .temp _ => none) m.rcpts
+      = m.rcpts.filter (fun x => !(settledOf res).contains x) := by
+  rw [deliveredIdx_eq, deleteIdxs_eq_filter m.rcpts (settledOf res) hc.2.1 (settled_subset hc)]
+
+theorem count_remaining (m : Msg) (res : List (Rcpt × RRes)) (hc : Complete m res) (x : Rcpt) :
+    (m.rcpts.filter (fun y => !(settledOf res).contains y)).count x = ((tempsOf res).map Prod.fst).count x := by
+  have hp := count_partition x res
+  have hs := count_settled x res
+  have hk := count_eq_of_nodup hc.1 hc.2.1 hc.2.2 x
+  by_cases hx : x ∈ settledOf res
+  · have : 0 < (settledOf res).count x := List.count_pos_iff.mpr hx
+    have hle : (res.map Prod.fst).count x ≤ 1 := List.nodup_iff_count.mp hc.1 x
+    have hz : (m.rcpts.filter (fun y => !(settledOf res).contains y)).count x = 0 := by
+      apply List.count_eq_zero_of_not_mem
+      simp [List.mem_filter, hx]
+    omega
+  · have h0 : (settledOf res).count x = 0 := List.count_eq_zero_of_not_mem hx
+    rw [List.count_filter (by simp [hx])]
+    omega
+
+/-- **Conservation in one attempt with per-recipient results**: every recipient of the message is
+    exactly one of: reported delivered, failed for good, still stored. -/
+theorem handlePartial_conserves (cfg : Cfg) (m : Msg) (res : List (Rcpt × RRes)) (hc : Complete m res) (x : Rcpt) :
+    (handlePartial cfg m res).delivered.count x + ((handlePartial cfg m res).failed.map Prod.fst).count x
+      + (match (handlePartial cfg m res).msg with | some m' => m'.rcpts.count x | none => 0)
+      = m.rcpts.count x := by
+  have hp := count_partition x res
+  have hk := count_eq_of_nodup hc.1 hc.2.1 hc.2.2 x
+  have hr := count_remaining m res hc x
+  have hd := remaining_rcpts m res hc
+  have hunf : handlePartial cfg m res =
+      if (tempsOf res).isEmpty then ⟨none, bouncesFor cfg (permsOf res) false, oksOf res, permsOf res, none⟩
+      else retryLater cfg m (tempsOf res) (deleteIdxs (res.filterMap fun (rc, v) => match v with
+        | .ok | .perm _ => some (m.rcpts.idxOf rc)
+        | .temp _ => none) m.rcpts) (bouncesFor cfg (permsOf res) false) (oksOf res) (permsOf res) := rfl
+  rw [hunf]
+  by_cases ht : (tempsOf res).isEmpty = true
+  · have ht0 : ((tempsOf res).map Prod.fst).count x = 0 := by
+      have : tempsOf res = [] := by simpa using ht
+      simp [this]
+    simp only [ht, if_true]
+    show (oksOf res).count x + ((permsOf res).map Prod.fst).count x + 0 = _
+    omega
+  · simp only [ht, Bool.false_eq_true, if_false, retryLater]
+    cases cfg.backoff (m.attempts + 1) with
+    | none =>
+      show (oksOf res).count x + ((permsOf res ++ tempsOf res).map Prod.fst).count x + 0 = _
+      simp only [List.map_append, List.count_append]
+      omega
+    | some w =>
+      show (oksOf res).count x + ((permsOf res).map Prod.fst).count x + (deleteIdxs _ m.rcpts).count x = _
+      rw [hd, hr]
+      omega
+
+/-! ### every outcome; whole histories -/
+
+/-- Per-recipient results cover the message's recipients (the relay contract); recipients are distinct. -/
+def CompleteOutcome (m : Msg) : Outcome → Prop
+  | .mapping res => Complete m res
+  | .sequence l => Complete m (zipDict m.rcpts l [])
+  | _ => m.rcpts.Nodup
+
+def restCount (o : StepOut) (x : Rcpt) : Nat := match o.msg with | some m' => m'.rcpts.count x | none => 0
+
+theorem attempt_conserves (cfg : Cfg) (m : Msg) (o : Outcome) (hc : CompleteOutcome m o) (x : Rcpt) :
+    (attempt cfg m o).delivered.count x + ((attempt cfg m o).failed.map Prod.fst).count x
+      + restCount (attempt cfg m o) x = m.rcpts.count x := by
+  cases o with
+  | success => simp [attempt, restCount]
+  | permanent r => simp [attempt, restCount, List.map_map, Function.comp_def]
+  | transient r =>
+    simp only [attempt]
+    cases cfg.backoff (m.attempts + 1) <;> simp [restCount, List.map_map, Function.comp_def]
+  | other r =>
+    simp only [attempt]
+    cases cfg.backoff (m.attempts + 1) <;> simp [restCount, List.map_map, Function.comp_def]
+  | mapping res => exact handlePartial_conserves cfg m res hc x
+  | sequence l => exact handlePartial_conserves cfg m _ hc x
+
+theorem handlePartial_subset (cfg : Cfg) (m m' : Msg) (res : List (Rcpt × RRes))
+    (h : (handlePartial cfg m res).msg = some m') : ∀ x ∈ m'.rcpts, x ∈ m.rcpts := by
+  have hunf : handlePartial cfg m res =
+      if (tempsOf res).isEmpty then ⟨none, bouncesFor cfg (permsOf res) false, oksOf res, permsOf res, none⟩
+      else retryLater cfg m (tempsOf res) (deleteIdxs (res.filterMap fun (rc, v) => match v with
+        | .ok | .perm _ => some (m.rcpts.idxOf rc)
+        | .temp _ => none) m.rcpts) (bouncesFor cfg (permsOf res) false) (oksOf res) (permsOf res) := rfl
+  rw [hunf] at h
+  split at h
+  · simp at h
+  · simp only [retryLater] at h
+    split at h
+    · simp at h
+    · simp at h
+      subst h
+      exact delIdxAux_subset _ 0 _
+
+/-- What stays stored after an attempt is part of what was stored before (never a new or an
+    already settled recipient). -/
+theorem attempt_subset (cfg : Cfg) (m m' : Msg) (o : Outcome) (h : (attempt cfg m o).msg = some m') :
+    ∀ x ∈ m'.rcpts, x ∈ m.rcpts := by
+  cases o with
+  | success => simp [attempt] at h
+  | permanent r => simp [attempt] at h
+  | transient r =>
+    simp only [attempt] at h
+    split at h <;> simp at h
+    subst h; intro x hx; exact hx
+  | other r =>
+    simp only [attempt] at h
+    split at h <;> simp at h
+    subst h; intro x hx; exact hx
+  | mapping res => exact handlePartial_subset cfg m m' res h
+  | sequence l => exact handlePartial_subset cfg m m' _ h
+
+theorem attempt_nodup (cfg : Cfg) (m m' : Msg) (o : Outcome) (hc : CompleteOutcome m o)
+    (h : (attempt cfg m o).msg = some m') : m'.rcpts.Nodup := by
+  have hn : m.rcpts.Nodup := by
+    cases o <;> first | exact hc | exact hc.2.1
+  rw [List.nodup_iff_count]
+  intro x
+  have := attempt_conserves cfg m o hc x
+  simp only [restCount, h] at this
+  have hle := List.nodup_iff_count.mp hn x
+  omega
+
+/-- The recipients each later attempt is made for. -/
+def pres (cfg : Cfg) : Option Msg → List Outcome → List (List Rcpt)
+  | none, _ => []
+  | some _, [] => []
+  | some m, o :: os => m.rcpts :: pres cfg (attempt cfg m o).msg os
+
+def ValidHistory (cfg : Cfg) : Option Msg → List Outcome → Prop
+  | none, _ => True
+  | some _, [] => True
+  | some m, o :: os => CompleteOutcome m o ∧ ValidHistory cfg (attempt cfg m o).msg os
+
+theorem pres_subset (cfg : Cfg) (os : List Outcome) (m : Msg) :
+    ∀ l ∈ pres cfg (some m) os, ∀ x ∈ l, x ∈ m.rcpts := by
+  induction os generalizing m with
+  | nil => simp [pres]
+  | cons o rest ih =>
+    intro l hl x hx
+    simp only [pres, List.mem_cons] at hl
+    rcases hl with rfl | hl
+    · exact hx
+    · cases hm : (attempt cfg m o).msg with
+      | none => rw [hm] at hl; simp [pres] at hl
+      | some m' =>
+        rw [hm] at hl
+        exact attempt_subset cfg m m' o hm x (ih m' l hl x hx)
+
+def finalOf (cfg : Cfg) : Option Msg → List Outcome → Option Msg
+  | none, _ => none
+  | some m, [] => some m
+  | some m, o :: os => finalOf cfg (attempt cfg m o).msg os
+
 end Slimta.Attempt
